@@ -8,3 +8,9 @@ import AL.Props.C07Rules
 #print axioms AL.C09R.globErrors_pos
 #print axioms AL.C13P.unexpectedAt_pos
 #print axioms AL.C07R.duplicate_at_repetition
+#print axioms AL.C07M.checkShellName_pos
+#print axioms AL.C07M.verifyRunnerLabel_pos
+#print axioms AL.C07M.conflictDiag_pos
+#print axioms AL.C07M.checkActionInputs_pos
+#print axioms AL.C07M.workflowCallJob_pos
+#print axioms AL.C07M.deprecated_pos
